@@ -115,6 +115,14 @@ func parseRaceLog(text string) []string {
 	return out
 }
 
+// racePipeConn: one end of an in-memory pipe that presents a TCP address (the client keys its books by IP).
+type racePipeConn struct {
+	net.Conn
+	addr *net.TCPAddr
+}
+
+func (c *racePipeConn) RemoteAddr() net.Addr { return c.addr }
+
 func raceLogPath() string {
 	for _, kv := range strings.Fields(os.Getenv("GORACE")) {
 		if strings.HasPrefix(kv, "log_path=") {
@@ -359,6 +367,47 @@ func raceOne(m map[string]string) string {
 			case <-time.After(120 * time.Millisecond):
 			}
 			call("PeriodicStopStart", func() { _ = lt.Stop(); time.Sleep(10 * time.Millisecond); _ = lt.Start() })
+		}
+	}()
+	// plain peers (no fast extension, no extension protocol) that connect to the leecher while it is writing pieces:
+	// they are sent the bitfield as their first message. In-memory pipes: the race detector takes every socket
+	// read/write for a synchronisation, which would hide an unsynchronised hand-over of the message's bytes.
+	wg.Add(1)
+	go func() {
+		defer wg.Done()
+		ih := lt.InfoHash()
+		for n := 0; ; n++ {
+			select {
+			case <-stop:
+				return
+			case <-time.After(25 * time.Millisecond):
+			}
+			a, b := net.Pipe()
+			pc := &racePipeConn{Conn: a, addr: &net.TCPAddr{IP: net.IPv4(127, 0, 3, byte(1+n%200)), Port: 40000 + n%1000}}
+			if !torrent.VerifInjectIncoming(lt, pc) {
+				a.Close()
+				b.Close()
+				continue
+			}
+			go func(b net.Conn, n int) {
+				defer b.Close()
+				_ = b.SetDeadline(time.Now().Add(400 * time.Millisecond))
+				hs := append([]byte{19}, []byte("BitTorrent protocol")...)
+				hs = append(hs, make([]byte, 8)...)
+				hs = append(hs, ih[:]...)
+				id := make([]byte, 20)
+				copy(id, fmt.Sprintf("-VF0001-%012d", n))
+				hs = append(hs, id...)
+				// (an in-memory pipe is synchronous: the client answers after the first 48 bytes and reads the peer id
+				// afterwards, so the reading must not wait for the write to finish)
+				go func() { _, _ = b.Write(hs) }()
+				buf := make([]byte, 4096)
+				for {
+					if _, err := b.Read(buf); err != nil {
+						return
+					}
+				}
+			}(b, n)
 		}
 	}()
 	time.Sleep(dur)
